@@ -38,6 +38,26 @@ TRUSTED_BASE = [
 ]
 
 
+def refresh_coq_project():
+    """_CoqProject lists every .v under coq/ except generated Tie files; the Makefile is
+    regenerated when that list changes (call with the coq lock held)."""
+    files = []
+    for d, _, fs in os.walk(COQ):
+        for f in fs:
+            if f.endswith(".v") and not f.startswith("."):
+                rel = os.path.relpath(os.path.join(d, f), COQ)
+                if not rel.startswith("Tie" + os.sep) and not rel.startswith("Extract" + os.sep):
+                    files.append(rel)
+    files.sort()
+    text = ("-Q . GM\n-arg -w -arg -notation-overridden,-deprecated-hint-without-locality,"
+            "-deprecated-hint-rewrite-without-locality,-deprecated-instance-without-locality\n" + "\n".join(files) + "\n")
+    path = os.path.join(COQ, "_CoqProject")
+    old = open(path).read() if os.path.exists(path) else ""
+    if old != text or not os.path.exists(os.path.join(COQ, "Makefile")):
+        open(path, "w").write(text)
+        sh("coq_makefile -f _CoqProject -o Makefile", cwd=COQ)
+
+
 class Lock:
     def __init__(self, name):
         self.path = os.path.join(VERIF, ".lock-" + name)
@@ -107,12 +127,11 @@ class Check:
     def coq(self):
         """make the project; compile Props/<ID>.v; count theorems and closed ones."""
         with Lock("coq"):
-            if not os.path.exists(os.path.join(COQ, "Makefile")):
-                sh("coq_makefile -f _CoqProject -o Makefile", cwd=COQ)
-            rc, out = sh("timeout 3000 make -j16 2>&1 | tail -40", cwd=COQ)
+            refresh_coq_project()
+            rc, out = sh("timeout 3000 make -j16 Props/%s.vo 2>&1 | tail -40" % self.pid, cwd=COQ)
             built = rc == 0 and "Error" not in out
             if not built:
-                self.broken.append("coq build: " + out.strip().splitlines()[-1][:200] if out.strip() else "coq build")
+                self.broken.append("coq build: " + (out.strip().splitlines()[-1][:200] if out.strip() else "failed"))
                 self.notes.append("coq make failed:\n" + out[-2000:])
             src = os.path.join(COQ, "Props", self.pid + ".v")
             text = open(src).read()
@@ -154,23 +173,26 @@ class Check:
         return rc == 0, out
 
     # ---------------------------------------------------------------- Go
-    def build_harness(self):
+    def build_harness(self, comp, race=False):
+        """builds go/cmd/<comp> against /repo's current working tree with -tags verif"""
         god = os.path.join(VERIF, "go")
         with Lock("go"):
             shutil.copy(os.path.join(REPO, "go.sum"), os.path.join(god, "go.sum"))
-            out_bin = os.path.join(self.work, "harness")
-            rc, out = sh(["go", "build", "-tags", "verif", "-o", out_bin, "."], cwd=god, env=GOENV, timeout=1200)
+            out_bin = os.path.join(self.work, "harness_" + comp + ("_race" if race else ""))
+            rc, out = sh(["go", "build", "-tags", "verif"] + (["-race"] if race else []) + ["-o", out_bin, "./cmd/" + comp],
+                         cwd=god, env=GOENV, timeout=1200)
         if rc != 0:
             self.notes.append("harness build failed:\n" + out[-3000:])
             self.broken.append("harness does not build against /repo: " + out.strip()[-300:])
             return False
-        self.harness_bin = out_bin
-        return True
+        if not race:
+            self.harness_bin = out_bin
+        return out_bin
 
-    def harness(self, cmd, out_name=None, extra=(), timeout=3000, race=False):
+    def harness(self, cmd, out_name=None, extra=(), timeout=3000, binary=None):
         """run a harness sub-command; returns (exchange path, stdout lines)"""
         out_path = os.path.join(self.work, out_name or (cmd + ".txt"))
-        args = [self.harness_bin, cmd, "-out", out_path, "-tier", self.tier, "-seed", str(self.seed)] + list(extra)
+        args = [binary or self.harness_bin, cmd, "-out", out_path, "-tier", self.tier, "-seed", str(self.seed)] + list(extra)
         rc, out = sh(args, cwd=self.work, env=GOENV, timeout=timeout)
         lines = out.splitlines()
         for l in lines:
@@ -188,8 +210,8 @@ class Check:
             self.broken.append("harness %s crashed (exit %d): %s" % (cmd, rc, out.strip()[-300:]))
         return out_path, lines
 
-    def model(self, cmd, path, timeout=3000):
-        rc, out = sh([os.path.join(VERIF, "ocaml", "modelrun"), cmd, path], timeout=timeout)
+    def model(self, comp, cmd, path, timeout=3000):
+        rc, out = sh([os.path.join(VERIF, "ocaml", "modelrun_" + comp), cmd, path], timeout=timeout)
         lines = out.splitlines()
         if rc != 0:
             self.broken.append("modelrun %s failed: %s" % (cmd, out.strip()[-300:]))
